@@ -199,7 +199,24 @@ def with_layout(env, elem, shape, elems, layout):
 
 
 def seq_bytes(env, arr, seq):
-    """memory images of a sequence of elements of arr (symbolic cells / numpy scalars), as one flat byte list"""
+    """memory images of a sequence of elements of arr (symbolic cells / numpy scalars), as one flat byte list
+    (structured elements: the images of their fields - what the alignment padding of a copied element holds is unspecified)"""
+    if arr.dtype.fields is not None:
+        out = []
+        for e in seq:
+            for name in arr.dtype.names:
+                fdt = arr.dtype.fields[name][0]
+                if env.mode == "sym":
+                    from engine.pysym.core import SymInt
+                    from engine.pysym import mem
+                    from engine.pysym.npmodel import SymArray
+                    v = e[name]
+                    v = v.v if hasattr(v, "pysym_np") else v
+                    out.extend(SymInt(mem.zx(c)) for c in SymArray(fdt, (), [v]).elem_cells(v))
+                else:
+                    import numpy as np
+                    out.extend(np.asarray(e[name]).tobytes())
+        return out
     if env.mode == "sym":
         from engine.pysym.core import SymInt
         from engine.pysym import mem
@@ -209,6 +226,22 @@ def seq_bytes(env, arr, seq):
         return out
     import numpy as np
     return list(b"".join(np.asarray(x, dtype=arr.dtype).tobytes() for x in seq))
+
+
+def mask_padding(env, arr, raw):
+    """the memory image of a structured array with its alignment padding bytes (unspecified content) set to 0"""
+    dt = arr.dtype
+    if dt.fields is None or env.mode == "sym":      # the model's padding bytes are 0
+        return raw
+    raw = bytearray(bytes(raw))
+    used = set()
+    for name in dt.names:
+        fdt, off = dt.fields[name][0], dt.fields[name][1]
+        used.update(range(off, off + fdt.itemsize))
+    for i in range(len(raw)):
+        if i % dt.itemsize not in used:
+            raw[i] = 0
+    return bytes(raw)
 
 
 def observe_layout(env, arr):
@@ -221,10 +254,10 @@ def observe_layout(env, arr):
     env.observe("flat", seq_bytes(env, arr, list(arr.flat)))
     for o in "CFAK":
         env.observe("ravel-" + o, seq_bytes(env, arr, list(arr.ravel(order=o).flat)))
-    env.observe("tobytes", arr.tobytes())
+    env.observe("tobytes", mask_padding(env, arr, arr.tobytes()))
     env.observe("T.flat", seq_bytes(env, arr, list(arr.T.flat)))
     if f.c_contiguous:
-        env.observe("data", arr.data)
+        env.observe("data", mask_padding(env, arr, arr.data))
     env.observe("getitem", seq_bytes(env, arr, [arr[tuple(0 for _ in arr.shape)], arr[tuple(d - 1 for d in arr.shape)]]) if _prod(arr.shape) else [])
 
 
@@ -321,3 +354,166 @@ def seq_bytes_of_values(env, elem, elems):
         HK.enc(env, [elem], e, d, False)
         out.extend(d.at(i) for i in range(d.cap))
     return out
+
+
+# ------------------------------------------------------------------------------------------------
+# C03 / C01: arrays of RECORDS.  binary.md: a record is the concatenation of its fields' encodings; an array is its elements
+# in row-major order.  numpy keeps such arrays with a structured dtype which, built with align=True as the runtime does, may
+# contain alignment padding: the memory image of the array is the encoding only when there is none.
+
+REC_PRIMS = ["uint8", "f64", "int8", "f32", "int16", "bool"]     # trivially serializable ones (sizes 1, 8, 1, 4) first; int16 (varint) and bool are not
+
+
+def mk_record_ser(env, prims):
+    """a record serializer as the Python backend generates it (binary.py: <Record>Serializer) for fields f0, f1, ... of the given primitive types"""
+    B = env.B
+    names = ["f%d" % i for i in range(len(prims))]
+    fields = [(n, HK.mk_ser(env, [p], {})) for n, p in zip(names, prims)]
+
+    class RecSer(B.RecordSerializer):
+        def __init__(self):
+            super().__init__(fields)
+
+        def write(self, stream, value):
+            self._write(stream, *[getattr(value, n) for n in names])
+
+        def write_numpy(self, stream, value):
+            self._write(stream, *[value[n] for n in names])
+
+        def read(self, stream):
+            return tuple(self._read(stream))
+    return RecSer()
+
+
+def records_with_layout(env, dt, shape, recs, layout):
+    """array of structured dtype dt, logical content recs (row-major list of field-value tuples), memory layout `layout`"""
+    import numpy as np
+    shape = tuple(shape)
+    if env.mode == "sym":
+        from engine.pysym.npmodel import SymArray, RecVal
+        return SymArray.with_layout(dt, shape, [RecVal(dt, r) for r in recs], layout)
+    a = np.zeros(len(recs), dtype=dt)
+    for i, r in enumerate(recs):
+        a[i] = tuple(r)
+    a = a.reshape(shape)
+    if layout == "C":
+        return a
+    if layout == "F":
+        return np.asfortranarray(a)
+    if layout == "T":
+        return a.T.copy(order="C").T
+    raise KeyError(layout)
+
+
+def field_images(env, arr, dt, n):
+    """memory images of the fields of the n elements of a structured array (logical row-major order) as byte lists:
+    [[image of field 0 of element 0], [field 1 of element 0], ...]"""
+    import numpy as np
+    out = []
+    if env.mode != "sym":
+        flat = np.ascontiguousarray(arr).reshape(-1)
+        for i in range(n):
+            for name in dt.names:
+                out.append(list(np.asarray(flat[i][name]).tobytes()))
+        return out
+    from engine.pysym.core import SymInt
+    from engine.pysym import mem
+    from engine.pysym.npmodel import SymArray
+    if hasattr(arr, "elems"):                      # logical array: elements are field-value lists
+        for i in range(n):
+            rec = arr._scalar(arr.elems[i])
+            for name, v in zip(dt.names, rec.vals):
+                fdt = dt.fields[name][0]
+                out.append([SymInt(mem.zx(c)) for c in SymArray(fdt, (), [v]).elem_cells(v)])
+        return out
+    bs = HK.arr_bytes(env, arr, n * dt.itemsize)      # np.frombuffer window: the fields sit at their offsets
+    for i in range(n):
+        for name in dt.names:
+            fdt, off = dt.fields[name][0], dt.fields[name][1]
+            out.append(bs[i * dt.itemsize + off:i * dt.itemsize + off + fdt.itemsize])
+    return out
+
+
+def expected_images(env, dt, recs):
+    import numpy as np
+    out = []
+    for r in recs:
+        for name, v in zip(dt.names, r):
+            fdt = dt.fields[name][0]
+            if env.mode == "sym":
+                from engine.pysym.core import SymInt
+                from engine.pysym import mem
+                from engine.pysym.npmodel import SymArray
+                out.append([SymInt(mem.zx(c)) for c in SymArray(fdt, (), [v]).elem_cells(v)])
+            else:
+                out.append(list(np.array(v, dtype=fdt).tobytes()))
+    return out
+
+
+def record_setup(env, kind, pool, nfields, shape):
+    import numpy as np
+    prims = [pool[env.choice("field%d" % i, len(pool))] for i in range(nfields)]
+    env.observe("fields", prims)
+    rser = mk_record_ser(env, prims)
+    dt = np.dtype(rser.overall_dtype())
+    recs = [[gen_elem(env, p, "e%d.f%d" % (i, j), 1) for j, p in enumerate(prims)] for i in range(_prod(shape))]
+    B = env.B
+    ser = B.FixedNDArraySerializer(rser, tuple(shape)) if kind == "fixedarray" else B.NDArraySerializer(rser, len(shape)) if kind == "ndarray" else B.DynamicNDArraySerializer(rser)
+    exp = env.data()
+    if kind == "dynarray":
+        exp.append(list(HK._c_uvarint(len(shape))))
+    if kind != "fixedarray":
+        for d in shape:
+            exp.append(list(HK._c_uvarint(d)))
+    for r in recs:
+        for p, v in zip(prims, r):
+            HK.enc(env, [p], v, exp, True)
+    env.observe("itemsize", [dt.itemsize, sum(dt.fields[n][0].itemsize for n in dt.names)])
+    return prims, rser, dt, recs, ser, exp
+
+
+def h_record_array_write(env, kind, pool, nfields, shape, layouts, N):
+    """array of records whose field types are chosen by the solver (padded and unpadded aligned layouts both occur), given with the
+    aligned dtype the runtime declares or with its packed variant (which the writer accepts), in a solver-chosen memory layout:
+    bytes written = dimensions + field-by-field reference encoding of the elements in row-major order."""
+    from numpy.lib import recfunctions
+    prims, rser, dt, recs, ser, exp = record_setup(env, kind, pool, nfields, shape)
+    layout = layouts[env.choice("layout", len(layouts))]
+    packed = env.choice("dtype", 2) == 1
+    adt = recfunctions.repack_fields(dt, align=False, recurse=True) if packed else dt
+    env.observe("variant", [str(layout), "packed" if packed else "aligned"])
+    arr = records_with_layout(env, adt, shape, recs, layout)
+    observe_layout(env, arr)
+    w, sink, off = HK.mk_writer(env, N)
+    ok, e = env.attempt(ser.write, w, arr)
+    if ok:
+        ok, e = env.attempt(w.flush)
+    if not ok:
+        return HK.unexpected(env, "record-array.write-no-exception", e, str(layout))
+    env.reach("record-array.write-no-exception")
+    HK.check_sink(env, "record-array.bytes==field-by-field-reference", sink, off, exp, "py:array-of-records:%s:bytes-differ-from-field-by-field-reference" % kind)
+    env.observe("outlen", sink.length)
+    env.observe("out", [sink.at(off + i) for i in range(exp.cap)])
+
+
+def h_record_array_read(env, kind, pool, nfields, shape, N):
+    """the field-by-field reference encoding of an array of records is read back as that array"""
+    import numpy as np
+    prims, rser, dt, recs, ser, exp = record_setup(env, kind, pool, nfields, shape)
+    payload = [exp.at(i) for i in range(exp.cap)]
+    r, src, p, tt, (ok, e) = HK.mk_reader(env, N, payload, exp.length, "full")
+    if not ok:
+        return HK.unexpected(env, "record-array.read-no-exception", e, "skip")
+    ok, rv = env.attempt(ser.read, r)
+    if not ok:
+        return HK.unexpected(env, "record-array.read-no-exception", rv)
+    env.reach("record-array.read-no-exception")
+    n = _prod(shape)
+    same = hasattr(rv, "shape") and tuple(rv.shape) == tuple(shape) and np.dtype(rv.dtype) == dt
+    if same:
+        got, want = field_images(env, rv, dt, n), expected_images(env, dt, recs)
+        same = EQ(want, got)
+        env.observe("fields-read", got)
+    env.check("record-array.read==written", same, "py:array-of-records:%s:read-differs" % kind, "the array of records read back differs (shape, dtype or a field of an element) from the one whose reference encoding was supplied")
+    env.check("record-array.consumed==produced", EQ(HK.consumed(r, src), p + exp.length), "py:array-of-records:%s:consumed-differs" % kind)
+    env.check("record-array.shares-no-memory-with-reader-buffer", not HK.shares_reader_buffer(env, rv, r), "py:array-of-records:%s:aliases-reader-buffer" % kind)
